@@ -108,7 +108,7 @@ func init() {
 		rule: "every 6th case runs on 2-3 nearly full simulated disks (writes are retried on another root or fail with ErrNoFreeSpace and are then not applied); cases: seeded sequential histories (10-40 steps) of Set/SetReader (5 reader shapes)/Create+Write*+Close/Get/GetReader/GetKeys/Delete over 2-5 keys (ASCII, multi-byte, long, with slash), contents 0..200 KiB incl. 2047-2049, 32767-32769, 65537; empty-key Set and never-written Get; collector (direct and timer), background windows and drains at boundaries; distinct = hash(ops, switch trace); non-trivial = some key is written at least twice (overwrite or delete/re-create)",
 		runs: [2]int{15000, 250000},
 		gen: func(r *simrt.Rand, idx int, tier string) SeqCase {
-			c := genSeqCase(r, seqProfile{prop: "C01", steps: [2]int{10, 40}, keys: [2]int{2, 5}, ctlWeight: 12, emptyKey: true, big: true, readback: "auto", deleteHeavy: r.Intn(2) == 0})
+			c := genSeqCase(r, seqProfile{prop: "C01", steps: [2]int{10, 40}, keys: [2]int{2, 5}, ctlWeight: 12, emptyKey: true, big: true, readback: "auto", deleteHeavy: r.Intn(2) == 0, held: 4})
 			if idx%6 == 5 {
 				// nearly full disks: writes are retried on other roots or fail with ErrNoFreeSpace
 				// (then they are not applied); whatever is reported successful must still read back exactly
@@ -131,7 +131,7 @@ func init() {
 				}
 				return genDeepChain(r, "C02", n)
 			}
-			return genSeqCase(r, seqProfile{prop: "C02", steps: [2]int{15, 60}, keys: [2]int{2, 4}, maxTx: 6, txWeight: 70, ctlWeight: 12, readback: "all"})
+			return genSeqCase(r, seqProfile{prop: "C02", steps: [2]int{15, 60}, keys: [2]int{2, 4}, maxTx: 6, txWeight: 70, ctlWeight: 12, readback: "all", held: 3})
 		}})
 	Register(seqProp{id: "C03",
 		rule: "cases: as C02 but biased to overlapping write sets (2/3 of writes hit one key), several writes per key inside a transaction, deletes, autocommit writes between Begin and Commit; every 4th case injects a Badger update failure into one commit or autocommit write; checked: error class of every Commit/Rollback against the model (serialization error iff a written key has a newer committed version) and a read-back of all keys by all actors after every step; non-trivial = at least one transaction and two writes",
@@ -148,6 +148,7 @@ func init() {
 				}
 				if len(cand) > 0 {
 					c.FaultOps = []int{cand[r.Intn(len(cand))]}
+					c.FaultLate = idx%8 == 7 // every other one fails at the commit step of the storage transaction
 				}
 			}
 			return c
@@ -159,7 +160,7 @@ func init() {
 			if idx%4 == 3 {
 				return genDeepChain(r, "C09", 100+r.Intn(300))
 			}
-			return genSeqCase(r, seqProfile{prop: "C09", steps: [2]int{20, 70}, keys: [2]int{2, 3}, maxTx: 5, txWeight: 65, gcEvery: true, readback: "all"})
+			return genSeqCase(r, seqProfile{prop: "C09", steps: [2]int{20, 70}, keys: [2]int{2, 3}, maxTx: 5, txWeight: 65, gcEvery: true, readback: "all", held: 6, big: true})
 		}}})
 	Register(seqProp{id: "C13",
 		rule: "cases: C02-style histories in which ended transaction handles (after Commit, failed Commit, Rollback, and after a reopen) keep being used for Get/GetReader/GetKeys/Set/SetReader/Create/Delete/Commit/Rollback in seeded order while observers of all levels are open; every late call except Rollback must return ErrTxNotFound (Rollback nil) and no observer's read-back may change; non-trivial = at least one late call was made",
@@ -222,6 +223,13 @@ func init() {
 						id++
 						c.Ops = append(c.Ops, Op{K: "set", Key: c.Keys[len(c.Keys)-400+r.Intn(400)], ID: id, Size: 1 + r.Intn(16)})
 					}
+				}
+			}
+			if idx%3 == 2 {
+				// the creation of a directory fails now and then (it fires in the write that rotates
+				// a full directory out): that write fails, the following ones must work again
+				for k := 0; k < 1+r.Intn(3); k++ {
+					c.MkdirFaultAt = append(c.MkdirFaultAt, 20+r.Intn(len(c.Ops)-20))
 				}
 			}
 			c.World.MaxDirCount = []uint64{0, 1, 50, 99, 100, 100, 101, 150}[r.Intn(8)]
@@ -493,8 +501,7 @@ func (s *seqRun) walkShape(i int, o Op) {
 				s.probes["dir-full"]++
 			}
 			s.dirSeenFull[d] = true
-			delete(s.dirRegained, d)
-			delete(s.writesSince, d)
+			s.forgetRegained(d)
 		} else if s.dirSeenFull[d] {
 			if old, ok := s.dirRegained[d]; !ok {
 				s.dirRegained[d] = n
@@ -504,21 +511,42 @@ func (s *seqRun) walkShape(i int, o Op) {
 				// used again
 				s.probes["dir-reused"]++
 				s.dirSeenFull[d] = false
-				delete(s.dirRegained, d)
-				delete(s.writesSince, d)
+				s.forgetRegained(d)
 			} else {
 				if n < old {
 					s.dirRegained[d] = n
 				}
-				if isWrite && o.Key != "" {
+				if o.K == "drain" {
+					// exact quiescence: every deletion that has taken a file out of this directory has
+					// also finished telling the directory registry about it
+					s.dirQuiesced[d] = true
+				}
+				if isWrite && o.Key != "" && s.dirQuiesced[d] {
+					// writes count only once the world has been quiescent since the directory regained
+					// room: a cleaner job may stay paused between removing the file and re-activating
+					// the directory for as long as the scheduler pleases
 					s.writesSince[d]++
 					s.missLog[d] += math.Log(1 - 1/float64(cand))
 				}
 				if s.missLog[d] < -27.7 { // e^-27.7 < 1e-12
-					s.fail("dir-shape", "not-reused", fmt.Sprintf("after step %d: directory %s was full, regained room through deletions and received no new file in %d further writes; with the numbers of directories below the limit at those writes the chance of that under the uniform choice the code makes is below 1e-12", i, d, s.writesSince[d]))
+					active := "?"
+					if ds, err := s.w.C.DirRepo().Get(s.w.Ctx); err == nil {
+						active = ""
+						for _, x := range ds {
+							active += fmt.Sprintf(" %s(count=%d,free=%d)", filepath.Base(x.Path()), x.Count, x.Free)
+						}
+					}
+					s.fail("dir-shape", "not-reused", fmt.Sprintf("after step %d: directory %s was full, regained room through deletions and received no new file in %d further writes; with the numbers of directories below the limit at those writes the chance of that under the uniform choice the code makes is below 1e-12; on disk: %v; directories the database currently offers:%s", i, d, s.writesSince[d], dirs, active))
 					return
 				}
 			}
 		}
 	}
+}
+
+func (s *seqRun) forgetRegained(d string) {
+	delete(s.dirRegained, d)
+	delete(s.writesSince, d)
+	delete(s.dirQuiesced, d)
+	delete(s.missLog, d)
 }
